@@ -566,8 +566,8 @@ func init() {
 			}
 			return 1200
 		},
-		ChunkSize: 40,
-		Rule:      "each case issues 2-40 (thorough: up to 512) concurrent Subscribe/SubscribeLimit*/Unsubscribe calls with unique filters (so request <-> packet identifier is read off the wire) plus 0-4 Ping calls, a quarter with a quit channel; the reference broker withholds every response and a PRNG script of 3-10 steps then answers subsets in random order, duplicates a response, sends unsolicited SUBACK/UNSUBACK/PINGRESP of the right spaces, fails random filter subsets with 0x80, sends a SUBACK with an illegal code or a surplus code for a pending request, breaks the connection, fires quits, issues more requests, calls Close; random yields/sleeps at the Ping hook points; finally everything still answerable is answered. Every 10th case drives the Ping slot hand-over window deterministically through the hook points ping.writefail / ping.quit (park the releasing Ping, let the read routine clear the slot, let a second Ping install, continue). Oracle per call, by logical-time intervals: it returns; nil only with a success response for ITS identifier delivered before the return; SubscribeError with exactly the filters its SUBACK failed, in order; ErrSubmit/ErrBreak/ErrDown only with a connection lost (or Close) before the return; ErrCanceled/ErrAbandoned only after its quit fired; ErrClosed only after Close; ErrMax for Ping only with another Ping in flight, never for the others below the slot limit; successful Pings <= PINGRESPs delivered. Non-trivial: >= 2 requests racing responses or a loss; distinct by request counts and script.",
+		ChunkSize:   40,
+		Rule:        "each case issues 2-40 (thorough: up to 512) concurrent Subscribe/SubscribeLimit*/Unsubscribe calls with unique filters (so request <-> packet identifier is read off the wire) plus 0-4 Ping calls, a quarter with a quit channel; the reference broker withholds every response and a PRNG script of 3-10 steps then answers subsets in random order, duplicates a response, sends unsolicited SUBACK/UNSUBACK/PINGRESP of the right spaces, fails random filter subsets with 0x80, sends a SUBACK with an illegal code or a surplus code for a pending request, breaks the connection, fires quits, issues more requests, calls Close; random yields/sleeps at the Ping hook points; finally everything still answerable is answered. Every 10th case drives the Ping slot hand-over window deterministically through the hook points ping.writefail / ping.quit (park the releasing Ping, let the read routine clear the slot, let a second Ping install, continue). Oracle per call, by logical-time intervals: it returns; nil only with a success response for ITS identifier delivered before the return; SubscribeError with exactly the filters its SUBACK failed, in order; ErrSubmit/ErrBreak/ErrDown only with a connection lost (or Close) before the return; ErrCanceled/ErrAbandoned only after its quit fired; ErrClosed only after Close; ErrMax for Ping only with another Ping in flight, never for the others below the slot limit; successful Pings <= PINGRESPs delivered. Non-trivial: >= 2 requests racing responses or a loss; distinct by request counts and script.",
 		Assumptions: []string{"overlapping calls are judged by interval: a result is accepted when legal for some order of the critical events inside [call, return]", "porcupine is not used here: requests share no state beyond the slot count, which is checked by interval overlap"},
 		Run: func(c *run.Ctx) {
 			if c.Case%10 == 9 {
